@@ -548,7 +548,8 @@ def r_XRayTransform2D(c):
     return np.vstack(rows)
 
 
-def r_XRayTransform3D(c):
+def xray3d_geometry(c):
+    """per view: (M (2x3), t (2,)) of the homogeneous projection matrices built by matrices_from_euler_angles"""
     from scipy.spatial.transform import Rotation
 
     sh, det = c["shape"], c["det_shape"]
@@ -560,16 +561,39 @@ def r_XRayTransform3D(c):
         Mv = np.diag(1 / ds) @ Rv @ np.diag(vs)
         t = -Mv @ (np.asarray(sh) / 2) + np.asarray(det) / 2
         Ms.append((Mv, t))
+    return Ms
+
+
+def xray3d_left_edges(c):
+    """left edges (detector-bin units) of the footprints (squares of side 0.5 centred at the projected voxel centres):
+    array (views, nvox, 2)"""
+    sh = c["shape"]
+    out = []
+    for Mv, t in xray3d_geometry(c):
+        out.append([Mv @ (np.asarray(ijk) + 0.5) + t - 0.25 for ijk in itertools.product(*[range(s) for s in sh])])
+    return np.asarray(out)
+
+
+def xray3d_integer_edge(c, eps=1e-9):
+    """some footprint has its left edge on a detector-bin edge (known finding xray3d-integer-edge)"""
+    le = xray3d_left_edges(c)
+    return bool(np.any(np.abs(le - np.round(le)) < eps))
+
+
+def r_XRayTransform3D(c, coded=False):
+    """documented footprint model: the share of the first bin is the overlap min(floor(le) + 1 - le, 0.5);
+    coded=True: the pinned formula min(ceil(le) - le, 0.5), which is 0 when le is an integer"""
+    sh, det = c["shape"], c["det_shape"]
     nvox = prod(sh)
     blocks = []
-    for Mv, t in Ms:
+    for Mv, t in xray3d_geometry(c):
         A = np.zeros((prod(det), nvox))
         for p, ijk in enumerate(itertools.product(*[range(s) for s in sh])):
             ctr = Mv @ (np.asarray(ijk) + 0.5) + t
             # voxel footprint: square of side 0.5 centred at the projected centre, split bilinearly
             left = ctr - 0.25
             lo = np.floor(left).astype(int)
-            tn = np.minimum(np.ceil(left) - left, 0.5)
+            tn = np.minimum((np.ceil(left) - left) if coded else (np.floor(left) + 1 - left), 0.5)
             f = [(tn[0], lo[0]), (0.5 - tn[0], lo[0] + 1)]
             g = [(tn[1], lo[1]), (0.5 - tn[1], lo[1] + 1)]
             for wa, a in f:
